@@ -79,12 +79,15 @@ func (e *EAP) DecodeFromBytes(data []byte, df gopacket.DecodeFeedback) error {
 // SerializationBuffer, implementing gopacket.SerializableLayer.
 // See the docs for gopacket.SerializableLayer for more info.
 func (e *EAP) SerializeTo(b gopacket.SerializeBuffer, opts gopacket.SerializeOptions) error {
-	if opts.FixLengths {
-		e.Length = uint16(len(e.TypeData) + 1)
+	// A packet longer than the 4 octet header carries a type octet, possibly
+	// with no type data (the decoder reads it that way).
+	hasType := e.Type != 0 || len(e.TypeData) > 0 || (!opts.FixLengths && e.Length > 4)
+	size := 4
+	if hasType {
+		size = 5 + len(e.TypeData)
 	}
-	size := len(e.TypeData) + 4
-	if size > 4 {
-		size++
+	if opts.FixLengths {
+		e.Length = uint16(size)
 	}
 	bytes, err := b.PrependBytes(size)
 	if err != nil {
